@@ -288,6 +288,30 @@ def guard_across_yield(body, type_needle="MutexGuard"):
     return out
 
 
+def _new_fn_items(body):
+    """paths of functions that do not exist on the reference tree and are mentioned as function items (not called directly)"""
+    from .inline import is_new_function
+    out = []
+
+    def walk(x):
+        if isinstance(x, list):
+            if len(x) >= 3 and x[0] == "k" and x[1] == "fn" and isinstance(x[2], str):
+                if is_new_function(x[2]) and "{closure" not in x[2].split("::")[-1]:
+                    out.append(x[2])
+                return
+            for y in x:
+                walk(y)
+    for bb in body.live_blocks:
+        for st in body.stmts(bb):
+            if st[0] == "A":
+                walk(st[2])
+        t = body.term(bb)
+        if t[0] == "call":
+            for a in t[2]:
+                walk(a)
+    return out
+
+
 def closure_family(facts, b, depth=3):
     """b plus every closure / coroutine body created (transitively) by its statements - found through the aggregate
     statements, so closures of helper functions inlined into b are included and the closure's path prefix does not matter;
@@ -306,6 +330,13 @@ def closure_family(facts, b, depth=3):
                             cb = facts.body(cp)
                             out.append(cb)
                             nxt.append(cb)
+            # a closure turned into a named function and passed as a function item (`.map(helper)`): same role
+            for fp in _new_fn_items(x):
+                if fp not in seen and fp in facts.bodies:
+                    seen.add(fp)
+                    cb = facts.body(fp)
+                    out.append(cb)
+                    nxt.append(cb)
         work = nxt
     for q in facts.bodies.keys():
         if q not in seen and q.startswith(b.path + "::{closure") and "::promoted[" not in q:
